@@ -199,7 +199,9 @@ class Constraints(object):
                                          k_genuine_vec[i],
                                          k_impostor_vec[i])
 
-    return triplets
+    # the triplets index the labeled subset: map them back to the caller's X
+    known_labels_idx, = np.where(known_labels_mask)
+    return known_labels_idx[triplets]
 
   def _pairs(self, n_constraints, same_label=True, max_iter=10,
              random_state=np.random):
